@@ -473,6 +473,9 @@ class ListGrader(AbstractGrader):
             if len(self.config['grouping']) != len(student_list):
                 msg = "Grouping indicates {} inputs are expected, but only {} inputs exist."
                 raise ConfigError(msg.format(len(self.config['grouping']), len(student_list)))
+            if len(answers) != len(self.grouping):
+                msg = "The number of answers ({}) and the number of groups ({}) are different"
+                raise ConfigError(msg.format(len(answers), len(self.grouping)))
         else:
             if len(answers) != len(student_list):
                 msg = "The number of answers ({}) and the number of inputs ({}) are different"
